@@ -494,4 +494,141 @@ def connWrite (caps : Nat → Nat) (l : Listener) (c : Conn) (b : Bytes) : Liste
       (l', { c with ctx := ctx', locals := locals }, res)
   else (l, c, ⟨c.ctx, [], none, b, [], .ok⟩)
 
+/-! ## Interleaved histories: one `Write` call as a sequence of rounds
+
+Between two rounds of its loop a `Write` holds no lock of the shape map, so configuration requests,
+accepts and rounds of other connections (which share the action counts) may happen there.  The
+working state of the loop lives where the code keeps it: `Context.ByteOffset` / `NextActionInfo` in
+the connection, the counts in the listener's shape map; each round re-reads the map
+(`CheckExistenceAndValidity`). -/
+
+/-- What is left of a `Write` call between two rounds. -/
+structure Pending where
+  rest : Bytes
+  delivered : Bytes := []     -- of this call
+  evs : List Ev := []         -- of this call
+  round : Nat := 0
+  deriving Repr, DecidableEq
+
+/-- Entry of `Conn.Write`: the head part goes out unshaped. -/
+def beginWrite (c : Conn) (b : Bytes) : Conn × Pending :=
+  if c.ctx.shaping then
+    let toWrite := c.ctx.headerLen - c.ctx.headerWritten
+    let h : Nat := if toWrite > 0 then min b.length toWrite.toNat else 0
+    ({ c with ctx := { c.ctx with headerWritten := c.ctx.headerWritten + (h : Int) } },
+     { rest := b.drop h, delivered := b.take h })
+  else (c, { rest := b })
+
+/-- `SetCapacity` of the connection's write bucket for pattern `r`. -/
+def applyCap (c : Conn) (r : Nat) (cap : Option Int) : Conn :=
+  match cap, c.ctx.fast with
+  | some x, some _ => { c with ctx := { c.ctx with fast := some x } }
+  | some x, none => { c with locals := mapSet r x c.locals }
+  | none, _ => c
+
+/-- One round of the pending call against the listener as it is *now*; `some st` = the call
+returned.  An unshaped context is `WriteDefaultBuckets`: everything goes out. -/
+def roundStep (cap : Nat) (l : Listener) (c : Conn) (pd : Pending) :
+    Listener × Conn × Pending × Option Status :=
+  if pd.rest.isEmpty then (l, c, pd, some .ok)
+  else
+    let flush : Listener × Conn × Pending × Option Status :=
+      (l, c, { pd with rest := [], delivered := pd.delivered ++ pd.rest, round := pd.round + 1 }, some .ok)
+    if !c.ctx.shaping then flush
+    else match c.ctx.regex with
+      | none => flush
+      | some r =>
+        let sh := validShape l c r
+        let acts := match sh with
+          | some s => s.actions
+          | none => []
+        let s : Loop := { off := c.ctx.off, next := c.ctx.next, acts := acts, delivered := pd.delivered, evs := pd.evs }
+        let fin (s' : Loop) (rest : Bytes) (st : Option Status) : Listener × Conn × Pending × Option Status :=
+          (if sh.isSome then setShapeActions l r s'.acts else l,
+           applyCap { c with ctx := { c.ctx with off := s'.off, next := s'.next, shaping := s'.shaping } } r s'.cap,
+           { rest := rest, delivered := s'.delivered, evs := s'.evs, round := pd.round + 1 }, st)
+        match stepLoop sh.isSome cap s pd.rest with
+        | .cont s' b' => fin s' b' none
+        | .done s' st => fin s' [] (some st)
+
+/-- Run the pending call to its end with nothing in between (round `r` gets `caps r`). -/
+def runRounds (caps : Nat → Nat) : Nat → Listener → Conn → Pending → Listener × Conn × Pending × Status
+  | 0, l, c, pd => (l, c, pd, .fuel)
+  | fuel + 1, l, c, pd =>
+    match roundStep (caps pd.round) l c pd with
+    | (l', c', pd', some st) => (l', c', pd', st)
+    | (l', c', pd', none) => runRounds caps fuel l' c' pd'
+
+/-- The world of interleaved histories: one listener, its connections, at most one `Write` in
+progress per connection (the proxy serves a connection from one goroutine). -/
+structure IConn where
+  c : Conn
+  pend : Option Pending := none
+  written : Bytes := []       -- everything handed to `Write` so far
+  out : Bytes := []           -- delivered by the calls that returned
+  evs : List Ev := []         -- actions performed by the calls that returned
+  dead : Bool := false        -- a call did not return `ok` (cut by a close action)
+  panicked : Bool := false    -- a round ended in a Go panic (theorem `interleaved_rounds_never_panic`: never)
+  deriving Repr, DecidableEq
+
+def IConn.delivered (ic : IConn) : Bytes :=
+  ic.out ++ (match ic.pend with | some pd => pd.delivered | none => [])
+
+def IConn.events (ic : IConn) : List Ev :=
+  ic.evs ++ (match ic.pend with | some pd => pd.evs | none => [])
+
+def IConn.rest (ic : IConn) : Bytes :=
+  match ic.pend with | some pd => pd.rest | none => []
+
+structure World where
+  l : Listener := {}
+  conns : List IConn := []
+  deriving Repr, DecidableEq
+
+inductive Step
+  | configure (cfg : RawConfig)                                       -- the swap inside `ServeHTTP`
+  | accept                                                            -- `GetTrafficShapedConn`
+  | setCtx (i : Nat) (u : Option Nat) (rs hl : Int) (fast : Option Int)  -- `Proxy.handle`, per response
+  | begin (i : Nat) (b : Bytes)                                       -- entry of `Conn.Write`
+  | round (i : Nat) (cap : Nat)                                       -- one round of conn `i`'s loop
+  deriving Repr, DecidableEq
+
+def World.step (w : World) : Step → World
+  | .configure cfg => { w with l := (configureSt w.l cfg).1 }
+  | .accept => { l := (accept w.l).1, conns := w.conns ++ [{ c := (accept w.l).2 }] }
+  | .setCtx i u rs hl f =>
+    match w.conns[i]? with
+    | none => w
+    | some ic =>
+      if ic.dead ∨ ic.pend.isSome then w
+      else
+        let ic' : IConn := { ic with c := setContext w.l ic.c u rs hl f }
+        { w with conns := w.conns.set i ic' }
+  | .begin i b =>
+    match w.conns[i]? with
+    | none => w
+    | some ic =>
+      if ic.dead ∨ ic.pend.isSome then w
+      else
+        let ic' : IConn := { ic with c := (beginWrite ic.c b).1, pend := some (beginWrite ic.c b).2, written := ic.written ++ b }
+        { w with conns := w.conns.set i ic' }
+  | .round i cap =>
+    match w.conns[i]? with
+    | none => w
+    | some ic =>
+      match ic.pend with
+      | none => w
+      | some pd =>
+        match roundStep cap w.l ic.c pd with
+        | (l', c', pd', none) =>
+          let ic' : IConn := { ic with c := c', pend := some pd' }
+          { l := l', conns := w.conns.set i ic' }
+        | (l', c', pd', some st) =>
+          let ic' : IConn := { ic with c := c', pend := none, out := ic.out ++ pd'.delivered, evs := ic.evs ++ pd'.evs,
+                                       dead := ic.dead || decide (st ≠ .ok),
+                                       panicked := ic.panicked || decide (st = .panic) }
+          { l := l', conns := w.conns.set i ic' }
+
+def World.run (w : World) (steps : List Step) : World := steps.foldl World.step w
+
 end Martian.Shape
